@@ -17,6 +17,7 @@ type NodeSpec struct {
 	Name string `json:"name"`
 	Pod  string `json:"pod"`
 	Kind string `json:"kind"` // plain2 | plain4 | numa4
+	Down bool   `json:"down"` // marked down (bypass) after it was added
 }
 
 type WlSpec struct {
@@ -136,6 +137,11 @@ func (e *Env) Build(sc *Scenario) (*Built, error) {
 			return nil, fmt.Errorf("setup AddNode: %w", err)
 		}
 		b.Dims[n.Name] = dim
+		if n.Down {
+			if _, err := e.Cal.SetNode(ctx, &coretypes.SetNodeOptions{Nodename: n.Name, Bypass: coretypes.TriTrue}); err != nil {
+				return nil, fmt.Errorf("setup SetNode(bypass): %w", err)
+			}
+		}
 	}
 	for _, w := range sc.Wls {
 		pod := ""
